@@ -225,6 +225,33 @@ def run(ctx):
                                       "by_kind": hr["by_kind"], "by_expected_outcome": hr["by_outcome"],
                                       "frames_compared": hr["frames_compared"],
                                       "deviations_outside_C16": beyond[:20]}
+    # how a row of system.peers becomes a host: behaviours of HostDiscovery.tla (the row about one node has a shape when
+    # the proxy starts, becomes ordinary, takes the shape again) replayed against the in-process proxy
+    dres = ctx.tlc_must_pass("HostDiscovery", "HostDiscovery.cfg", workers=2, timeout=300, name="host-discovery")
+    dbehs = list(dict.fromkeys(rows(dres.output, "HD")))
+    if len(dbehs) != 24:
+        raise core.Inconclusive("TLC exported %d host-discovery behaviours, expected 24" % len(dbehs))
+    dpath = ctx.path("discovery_behaviours.jsonl")
+    open(dpath, "w").write("\n".join(dbehs) + "\n")
+    dout = ctx.path("discovery_result.json")
+    ctx.drv(["discovery", "-in", dpath, "-out", dout, "-workers", "6"], timeout=900)
+    dr = json.load(open(dout))
+    dnotes = []
+    for m in dr.get("mismatches") or []:
+        sh = m["behaviour"]["steps"][m["step"]]["shape"]
+        phase = ["when the proxy starts", "after the row became ordinary", "after the row took the shape again"][m["step"]]
+        desc = "system.peers row about h2 with rpc_address=%s peer=%s data_center=%s, %s: %s (expected %s, got %s)" % (
+            sh["rpc"], sh["peer"], sh["dc"], phase, m["what"], m["want"], m.get("got"))
+        missing = sorted(set(m["want"]) - set(m.get("got") or []))
+        if missing:
+            # a listed node with a usable client address that does not receive requests
+            ctx.violation("C16:discovery:listed-node-not-routed:rpc-%s:peer-%s:dc-%s:phase%d" % (sh["rpc"], sh["peer"], sh["dc"], m["step"]), desc, replay=m)
+        else:
+            dnotes.append(desc)
+    if dnotes:
+        print("NOTE beyond-property: %d deviations from HostDiscovery.tla, e.g. %s" % (len(dnotes), dnotes[0][:400]))
+    ctx.notes["host_discovery"] = {"behaviours_replayed": dr["behaviours"], "phases": dr["steps"], "probes": dr["probes"],
+                                   "deviations_outside_C16": dnotes[:20]}
     # Backoff table
     bres = ctx.tlc_must_pass("Backoff", "Backoff.cfg", workers=2, timeout=600, name="backoff")
     brows = rows(bres.output, "ROW")
